@@ -46,6 +46,9 @@ SHAPES = {
     "diff-nested-samesize-equal": {"src": {"files": {"sub/c.txt": F("AAAA", 0), "sub/deeper/c.txt": F("CCCC", 0)}, "doc": None},
                                    "dst": {"files": {"sub/c.txt": F("BBBB", 0), "sub/deeper/c.txt": F("DDDD", 0)}, "doc": None}},
     "diff-nested-older": {"src": {"files": {"sub/c.txt": F("AAAAAA", -100)}, "doc": None}, "dst": {"files": {"sub/c.txt": F("BB", 0)}, "doc": None}},
+    # equal size and mtime, first difference beyond the first 8 KiB / in the last partial block
+    "diff-samesize-equal-big-tail": {"src": {"files": {"c.txt": F("A" * 9000 + "X" + "A" * 999, 0)}, "doc": None},
+                                     "dst": {"files": {"c.txt": F("A" * 9000 + "Y" + "A" * 999, 0)}, "doc": None}},
     "diff-excluded-name": {"src": {"files": {"skip.log": F("AAAAAA", 100), "ok.txt": F("same")}, "doc": None},
                            "dst": {"files": {"skip.log": F("BB", 0), "ok.txt": F("same")}, "doc": None}},
     "doc-disjoint": {"src": {"files": {}, "doc": {"a": 1}}, "dst": {"files": {}, "doc": {"b": 2}}},
